@@ -114,8 +114,30 @@ def gen_equalities(rng):
             "c": [rng.randint(-3, 3) for _ in range(n)], "floats": rng.random() < 0.5}
 
 
+def gen_degenerate_pairs(rng):
+    """a homogeneous (or consistent) equality written as a row and its negation with non-dyadic coefficients (pivots like 5/7
+    leave rounding residues where the exact tableau entry is 0), at a degenerate vertex, with an objective that is often unbounded
+    along the equality's ray"""
+    n = rng.randint(2, 3)
+    row = [rng.choice([-7, -5, -3, 3, 5, 6, 7]) for _ in range(n)]
+    if all(v > 0 for v in row) or all(v < 0 for v in row):
+        row[rng.randrange(n)] *= -1
+    x0 = [rng.randint(0, 1) for _ in range(n)] if rng.random() < 0.4 else [0] * n
+    rhs = sum(a * x for a, x in zip(row, x0))
+    A, b = [row, [-a for a in row]], [rhs, -rhs]
+    if rng.random() < 0.4:
+        A.append([rng.randint(0, 3) for _ in range(n)])
+        b.append(rng.randint(0, 4))
+    order = list(range(len(A)))
+    rng.shuffle(order)
+    return {"A": [A[i] for i in order], "b": [b[i] for i in order], "c": [rng.randint(-9, 9) for _ in range(n)], "floats": rng.random() < 0.5}
+
+
 def gen(rng, big=False):
-    if rng.random() < 0.25:
+    r0 = rng.random()
+    if r0 < 0.12:
+        return gen_degenerate_pairs(rng)
+    if r0 < 0.35:
         return gen_equalities(rng)
     m, n = (rng.randint(1, 4), rng.randint(1, 4)) if big else (rng.randint(1, 3), rng.randint(1, 3))
     lim = 3 if max(m, n) == 4 else 5
